@@ -266,6 +266,11 @@ def run_requestor(case):
                 elif phase == "release_rp":
                     b = recv_pdu(c, 2.0)                        # the A-RELEASE-RQ
                     stall(c, A_RELEASE_RP().encode(), cut, style, stop)
+                elif phase == "release_collision":
+                    b = recv_pdu(c, 2.0)                        # the A-RELEASE-RQ
+                    c.sendall(b"\x05\x00\x00\x00\x00\x04\x00\x00\x00\x00")   # our own A-RELEASE-RQ instead of the answer
+                    b = recv_pdu(c, 2.0)                        # the node's A-RELEASE-RP; from here on: silence
+                    seen.append({6: "release_rp", 7: "abort"}.get(b[0], str(b[0])) if b else "nothing")
             # keep reading what the node sends (A-ABORT, close) without ever closing ourselves
             while not stop.is_set():
                 b = recv_pdu(c, 0.1)
@@ -292,7 +297,7 @@ def run_requestor(case):
                 ready.set()
                 if phase == "dimse_rsp":
                     a.send_c_echo()
-                elif phase == "release_rp":
+                elif phase in ("release_rp", "release_collision"):
                     a.release()
                 elif phase == "idle":
                     pass
